@@ -108,9 +108,18 @@ fstart = "! start "
 fend   = "! end "
 
 _newlibrary = None
+# Names of the helpers which add_shadow_helper created for the classes
+# of the current library.
+_shadow_helpers = []
+
+
 def set_library(library):
     global _newlibrary
     _newlibrary = library
+    # The capsule helpers of the classes of a library wrapped earlier
+    # in this process are not helpers of this library.
+    while _shadow_helpers:
+        CHelpers.pop(_shadow_helpers.pop(), None)
 
 
 def add_all_helpers():
@@ -530,6 +539,8 @@ typedef struct s_{C_type_name} {C_type_name};{cpp_endif}{lend}""".format(
         )
     )
     CHelpers[name] = helper
+    if name not in _shadow_helpers:
+        _shadow_helpers.append(name)
     return name
 
 
